@@ -130,7 +130,7 @@ def classify_poly(name, px, py, dx, dy, band):
     return inside_any, outside_all
 
 
-def body_polylike(env, kinds=1, shape='triangle', nrows=3, xperms=None, yperms=None):
+def body_polylike(env, kinds=1, shape='triangle', nrows=3, xperms=None, yperms=None, thetas=None):
     """polygon-like regions (polygon with a symbolic translation; circle / ellipse with a symbolic centre)"""
     from glue.core.subset import roi_to_subset_state
     from glue.core.roi import PolygonalROI, CircularROI, EllipticalROI
@@ -139,9 +139,14 @@ def body_polylike(env, kinds=1, shape='triangle', nrows=3, xperms=None, yperms=N
         install_path_stub()
         _clamp_linspace()
     xkind, ykind = KINDS[kinds]
+    if env.symbolic:
+        # rotated regions index the category positions by symbolic masks: keep those position arrays inside the shim
+        import glue.core.subset as gsub
+        from vtools import symnp as sn
+        gsub.np = sn.PL if (shape in ('rotrect', 'ellipse') and (xkind, ykind) == ('cat', 'cat')) else sn.P
     dx = env.real('dx', lo=-1.5, hi=1.5)
     dy = env.real('dy', lo=-1.5, hi=1.5)
-    if (xkind, ykind) == ('num', 'num') and shape not in SHAPES:
+    if (xkind, ykind) == ('num', 'num') and shape in ('circle', 'ellipse'):
         return _numeric_conic(env, shape, nrows, dx, dy)
     d, xpos, ypos, xcats, ycats = build(env, xkind, ykind, nrows, xperms, yperms)
     if shape in SHAPES:
@@ -151,6 +156,23 @@ def body_polylike(env, kinds=1, shape='triangle', nrows=3, xperms=None, yperms=N
 
         def classify(px, py):
             return classify_poly(shape, px, py, dx, dy, band)
+    elif shape == 'rotrect':
+        # a rotated rectangle (long and thin, so that the rotation matters) with a symbolic centre
+        from glue.core.roi import RectangularROI
+        from vtools import symnp as sn
+        hw, hh = 1.4, 0.3
+        thetas = [math.pi / 2, 0.6, -0.5, math.pi] if thetas is None else thetas
+        theta = thetas[env.choice('theta', len(thetas))]
+        roi = RectangularROI(1.0 + dx - hw, 1.0 + dx + hw, 1.0 + dy - hh, 1.0 + dy + hh, theta=theta)
+        ct, st_ = sn.trig(theta)
+        band = 1e-3
+
+        def classify(px, py):
+            ux, uy = px - 1.0 - dx, py - 1.0 - dy
+            a, b = ct * ux + st_ * uy, -st_ * ux + ct * uy                        # point rotated back into the rectangle frame
+            ins = (a >= -hw + band) & (a <= hw - band) & (b >= -hh + band) & (b <= hh - band)
+            out = (a <= -hw - band) | (a >= hw + band) | (b <= -hh - band) | (b >= hh + band)
+            return ins, out
     elif shape == 'circle':
         r = 1.25
         roi = CircularROI(1.0 + dx, 1.0 + dy, r)
@@ -162,7 +184,7 @@ def body_polylike(env, kinds=1, shape='triangle', nrows=3, xperms=None, yperms=N
             return q <= (r * f) ** 2 * (1 - 1e-3), q >= r * r * (1 + 1e-3)
     else:
         rx, ry = 1.5, 0.75
-        thetas = [0.0, 2.0, -0.5, 3.5] if (xkind, ykind) == ('num', 'num') else [0.0]
+        thetas = ([0.0, 2.0, -0.5, 3.5] if (xkind, ykind) == ('num', 'num') else [0.0]) if thetas is None else thetas
         theta = thetas[env.choice('theta', len(thetas))]
         roi = EllipticalROI(1.0 + dx, 1.0 + dy, rx, ry, theta=theta)
         from vtools import symnp as sn
@@ -258,13 +280,18 @@ def harnesses(tier):
                           wall_s=1800, max_paths=500000,
                           bounds=dict(axes=(xk, yk), rows=nrows, categories=3, category_orders='all 6', regions=['x range', 'y range', 'RangeROI', 'rectangle'],
                                       bounds='symbolic')))
-    shapes = ['triangle', 'box', 'L', 'circle', 'ellipse']
+    shapes = ['triangle', 'box', 'L', 'circle', 'ellipse', 'rotrect']
     for k, (xk, yk) in enumerate(KINDS):
         for sh in shapes:
-            if tier == 'quick' and (sh == 'box' or (sh in ('circle', 'ellipse') and xk != yk)):
+            if tier == 'quick' and (sh == 'box' or (sh in ('circle', 'ellipse') and xk != yk)) and sh != 'rotrect':
                 continue          # (mixed axes with the 9-gon of a circle: several minutes of solver time -> thorough tier)
+            th = None
+            if sh == 'rotrect' and tier == 'quick' and (xk, yk) != ('num', 'num'):
+                th = [math.pi / 2, 0.6]
+            if sh == 'ellipse' and tier == 'thorough' and (xk, yk) != ('num', 'num'):
+                th = [0.0, 2.0]
             hs.append(Harness('%s axes=(%s,%s)' % (sh, xk, yk), body_polylike,
-                              params=dict(kinds=k, shape=sh, nrows=nrows if sh in SHAPES else 2,
+                              params=dict(kinds=k, shape=sh, nrows=nrows if sh in SHAPES else 2, thetas=th,
                                           xperms=[0, 3, 5] if tier == 'quick' else None, yperms=[1, 4] if tier == 'quick' else None),
                               validate=15, weight=8 if sh in ('circle', 'ellipse') else 5, wall_s=1800, max_paths=500000,
                               bounds=dict(axes=(xk, yk), region=sh, translation='symbolic in [-1.5,1.5]^2', rows=nrows, category_orders='all 6'),
